@@ -10,6 +10,11 @@ Extracted (fail closed on any unexpected shape):
   * shift / mask constants of the dependency encoder and of both decoders, entry width
   * busy timeout, version-gate condition, the info row written at creation
   * BuildSystem merged version (internal + (client << shift), result width), recreate flags of the callers
+  * the TRANSACTION SHAPE of the whole file: every transaction-control / journalling statement (BEGIN, END, COMMIT,
+    ROLLBACK, SAVEPOINT, RELEASE, PRAGMA, ATTACH, DETACH, VACUUM) found in any string literal, grouped by the member
+    function that contains it; every sqlite3_exec / sqlite3_prepare* call whose SQL argument is not a literal; the
+    set of sqlite3_* API functions called anywhere in the file (C04_one_transaction_per_build compares all three
+    with what the model assumes: one BEGIN EXCLUSIVE .. END per build, nothing else anywhere)
 """
 import re
 from xcommon import *
@@ -162,6 +167,124 @@ def dep_decode(body, where):
         raise ExtractError("dependency decoding in %s: loop is not 0..numDependencies ascending" % where)
     return dict(orderOnlyMask=int(oo.group(1)), singleUseShift=int(su.group(1)), singleUseMask=int(su.group(2)),
                 idShift=int(idm.group(1)), entryBytes=8)
+
+
+TXN_HEADS = ("BEGIN", "END", "COMMIT", "ROLLBACK", "SAVEPOINT", "RELEASE", "PRAGMA", "ATTACH", "DETACH", "VACUUM")
+
+
+def skip_literal(src, i):
+    q = src[i]
+    j = i + 1
+    while j < len(src) and src[j] != q:
+        if src[j] == "\\":
+            j += 1
+        j += 1
+    return j + 1
+
+
+def member_functions(src):
+    """[(name, start, end)] (indices into src of the body braces) of the functions defined directly inside
+    `class SQLiteBuildDB { .. }`, and of the free functions of the file (depth 0 of a namespace)."""
+    m = re.search(r"class\s+SQLiteBuildDB\s*:\s*public\s+BuildDB\s*\{", src)
+    if not m:
+        raise ExtractError("class SQLiteBuildDB not found")
+    _, cls_end = find_block(src, m.end() - 1)
+    out = []
+
+    def scan(lo, hi, scope):
+        i, last = lo, lo
+        while i < hi:
+            c = src[i]
+            if c == '"' or c == "'":
+                i = skip_literal(src, i)
+                continue
+            if c == ";" or c == "}":
+                last = i + 1
+            elif c == "{":
+                header = re.sub(r"\s+", " ", src[last:i]).strip()
+                _, end = find_block(src, i)
+                if i == m.end() - 1:
+                    scan(i + 1, end - 1, "class")              # the class itself
+                elif re.match(r"^(namespace\b[^()]*|extern \"C\")$", header):
+                    scan(i + 1, end - 1, scope)
+                elif re.search(r"\)\s*(const\s*)?(noexcept\s*)?(override\s*)?(final\s*)?$", header) and not re.match(r"^(if|for|while|switch)\b", header):
+                    fm = re.search(r"(~?\w+)\s*\(", re.sub(r"^(template\s*<[^>]*>\s*)", "", header))
+                    if not fm:
+                        raise ExtractError("cannot name the function with header %r" % header)
+                    out.append((fm.group(1), i, end))
+                # anything else (struct, enum, initializer) holds no code
+                i = end
+                last = end
+                continue
+            i += 1
+    scan(0, len(src), "file")
+    if not any(n == "setRuleResult" for n, _, _ in out) or not any(n == "open" for n, _, _ in out):
+        raise ExtractError("member functions of SQLiteBuildDB not recognised: %s" % [n for n, _, _ in out])
+    return out
+
+
+def enclosing(funcs, idx):
+    best = None
+    for n, a, b in funcs:
+        if a <= idx < b and (best is None or a > best[1]):
+            best = (n, a, b)
+    return best[0] if best else "<outside any function>"
+
+
+def txn_statements(text):
+    out = []
+    for st in text.split(";"):
+        w = st.strip().split()
+        if w and w[0].upper() in TXN_HEADS:
+            out.append(" ".join(st.split()) + ";")
+    return out
+
+
+def transaction_shape(src):
+    funcs = member_functions(src)
+    by_fn = []
+    for idx, text in merged_literals(src):
+        sts = txn_statements(text)
+        if not sts:
+            continue
+        fn = enclosing(funcs, idx)
+        if by_fn and by_fn[-1][0] == fn:
+            by_fn[-1][1].extend(sts)
+        else:
+            by_fn.append((fn, sts))
+    nonlit = []
+    for m in re.finditer(r"\b(sqlite3_exec|sqlite3_prepare\w*)\s*\(", src):
+        # split the argument list at depth 0
+        depth, j, args, cur = 0, m.end(), [], ""
+        while j < len(src):
+            c = src[j]
+            if c == '"' or c == "'":
+                k = skip_literal(src, j)
+                cur += src[j:k]
+                j = k
+                continue
+            if c in "([{":
+                depth += 1
+            elif c in ")]}":
+                if depth == 0:
+                    args.append(cur)
+                    break
+                depth -= 1
+            if c == "," and depth == 0:
+                args.append(cur)
+                cur = ""
+            else:
+                cur += c
+            j += 1
+        if len(args) < 2:
+            raise ExtractError("%s call with %d arguments" % (m.group(1), len(args)))
+        a = args[1].strip()
+        while a.startswith("(") and a.endswith(")"):
+            a = a[1:-1].strip()
+        if not re.match(r'^("([^"\\\\]|\\\\.)*"\s*)+$', a, re.S):
+            nonlit.append((enclosing(funcs, m.start()), m.group(1), re.sub(r"\s+", " ", a)))
+    calls = sorted(set(re.findall(r"\b(sqlite3_\w+)\s*\(", src)))
+    return by_fn, nonlit, calls
 
 
 def lstr_list(xs):
@@ -325,6 +448,10 @@ def run():
     capi_recreate = m.group(1)
     used.append((REL_CAPI, m.group(0)))
 
+    # ---- transaction shape of the whole file ----------------------------------------------------
+    txn_by_fn, sql_nonlit, sqlite_calls = transaction_shape(src)
+    used.append((REL, src))
+
     # ---- emit ----------------------------------------------------------------------------------
     L = []
     L.append("namespace LLBuild.Generated.SQLiteDB\n")
@@ -378,6 +505,14 @@ def run():
     L.append("def bsInternalSchemaVersion : Nat := %d\ndef mergedShift : Nat := %d\ndef mergedWidth : Nat := %d" % (internal, mshift, widths[rt]))
     L.append("def mergedAssert : String := %s" % lean_str(assert_txt))
     L.append("/-- `recreateUnmatchedVersion` passed by the two openers -/\ndef recreateFlagBuildSystem : Bool := %s\ndef recreateFlagCAPI : Bool := %s" % (bs_recreate, capi_recreate))
+    L.append("")
+    L.append("/-- every transaction-control / journalling statement (BEGIN, END, COMMIT, ROLLBACK, SAVEPOINT, RELEASE, PRAGMA, ATTACH,\n"
+             "DETACH, VACUUM) in any string literal of the file, grouped by the function that contains the literal, in source order -/")
+    L.append("def txnControl : List (String × List String) := [\n  %s]\n" % ",\n  ".join("(%s, %s)" % (lean_str(f), lstr_list(sts)) for f, sts in txn_by_fn))
+    L.append("/-- `sqlite3_exec` / `sqlite3_prepare*` calls whose SQL argument is not a string literal: (function, callee, expression) -/")
+    L.append("def sqlArgsNotLiteral : List (String × String × String) := [\n  %s]\n" % ",\n  ".join("(%s, %s, %s)" % (lean_str(f), lean_str(c), lean_str(e)) for f, c, e in sql_nonlit))
+    L.append("/-- every `sqlite3_*` function called anywhere in the file -/")
+    L.append("def sqliteCalls : List String := %s" % lstr_list(sqlite_calls))
     L.append("\nend LLBuild.Generated.SQLiteDB")
     return write_generated("SQLiteDB", "\n".join(L), used)
 
